@@ -101,6 +101,16 @@ theorem C03_print_config_request_cleared :
       tryExitOf tables mode (.exit 2 .clean) = .passes ∧ tryExitOf tables mode (.exc .TypeError .clean) = .caught) := by
   decide
 
+/-- the explicit checks introduced by repairs are still in the source (96e4fb9: unknown sub-command name →
+NSKeyError in get_subcommands; adfb1a7: `_check_subcommand_settings` → TypeError before `.clone()` in
+_ActionSubCommands.__call__ and before the merge in handle_subcommands; f3961c5: adapt_classes_any only walks an
+init_args that is a Namespace).  They are what makes the `designed` entries of the regions `subcommands` and
+`subcmdAction` true of the code. -/
+theorem C03_repaired_guards :
+    ∀ g ∈ ["unknown_subcommand_name@get_subcommands", "subcommand_settings@__call__", "subcommand_settings@handle_subcommands",
+           "subcommand_settings_raises_TypeError", "init_args_namespace@adapt_classes_any"], g ∈ tables.guards := by
+  decide
+
 /-- `_check_type` (and `_check_value_key` for plain types) wrap TypeError and ValueError into TypeError -/
 theorem C03_check_type_wraps :
     ∀ w ∈ [Wrapper.checkType, .checkValueKey], ∀ mode ∈ Mode.all, ∀ c ∈ [Exc.TypeError, .ValueError],
@@ -328,8 +338,14 @@ example : ∀ top, routePath tables .yaml top (.body .parseArgs) [.common, .prin
 example : witnessInner = .escapes .ArgumentError := by decide
 example : witnessHelp = .exit 2 := by decide
 example : witnessDefault = .escapes .ArgumentError := by decide
--- a failure that no region is designed to raise is outside the theorem (and escapes): the open finding about sub-command sections
+-- F17n / F17s: an unknown sub-command name and a non-mapping sub-command section are designed failures now
+example : routePath tables .yaml false (.body .parseObject) [.common, .subcommands] (.exc .NSKeyError .clean) = .argErr := by decide
+example : routePath tables .yaml true (.body .parseString) [.common, .subcommands] (.exc .TypeError .clean) = .exit 2 := by decide
+example : routePath tables .yaml true (.body .parseArgs) [.knownArgs, .subcmdAction] (.exc .TypeError .clean) = .exit 2 := by decide
+-- negative regression witness (the behaviour before those repairs, and of the residual open findings): an AttributeError
+-- is something no region is designed to raise; it is outside the theorem and escapes
 example : routePath tables .yaml false (.body .parseString) [.common, .subcommands] (.exc .AttributeError .clean) = .escapes .AttributeError := by decide
+example : routePath tables .yaml false (.body .parseArgs) [.knownArgs, .subcmdAction] (.exc .AttributeError .clean) = .escapes .AttributeError := by decide
 -- merge_config → ActionTypeHint.discard_init_args_on_class_path_change is designed to raise nothing and has no handler of
 -- its own: an AttributeError there (seed C03-3A: `None.get` when the overriding spec has no init_args) escapes from the
 -- methods that MERGE a source with the defaults; the search watches for it (it must not be observed on the clean tree)
